@@ -81,6 +81,7 @@ type Machine struct {
 	pcLog    []string
 	misaligned []string
 	poolGets int
+	poolCap  int
 	zeroReads int
 
 	skipPhi bool
@@ -674,6 +675,9 @@ func (m *Machine) rangeIter(c Val) Val {
 		var keys []interface{}
 		if !x.Nil {
 			keys = append(keys, (*x.Keys)...)
+		}
+		if len(keys) >= 2 {
+			m.reached["map-range-over-2+-entries"] = true
 		}
 		if m.opt.ReverseMaps {
 			for a, b := 0, len(keys)-1; a < b; a, b = a+1, b-1 {
